@@ -30,6 +30,9 @@ fn main() {
 	if args.kv.get("late_update").map(|s| s == "1").unwrap_or(false) {
 		prof.late_update = true;
 	}
+	if args.kv.get("open_forks").map(|s| s == "1").unwrap_or(false) {
+		prof.open_forks = true;
+	}
 	if let Some(s) = args.kv.get("deadline_kind") {
 		prof.deadline_kind = Some(s.parse().unwrap());
 	}
